@@ -445,7 +445,9 @@ func c07WeekKey(c *Ctx, m *Module) {
 
 // c07CacheScope: the parse memo belongs to one uploader (one Run); a wider scope
 // folds stale values of a file parsed while it was still active.
-func c07CacheScope(c *Ctx, m *Module) {
+func c07CacheScope(c *Ctx, m *Module) { c07CacheScopeAs(c, m, "C07.fresh-parse") }
+
+func c07CacheScopeAs(c *Ctx, m *Module, rule string) {
 	r := c.R
 	pc := m.Func("internal/upload", "uploader.parseCountFile")
 	n := 0
@@ -461,21 +463,21 @@ func c07CacheScope(c *Ctx, m *Module) {
 		}
 		n++
 		d := describe(mp)
-		r.Check("C07.fresh-parse", "parseCountFile/memo table owned by the uploader", m.Pos(in.Pos()), strings.HasPrefix(d, "param:u.") && !strings.Contains(d, "global:"),
+		r.Check(rule, "parseCountFile/memo table owned by the uploader", m.Pos(in.Pos()), strings.HasPrefix(d, "param:u.") && !strings.Contains(d, "global:"),
 			"the parse cache must live in the uploader value created for this Run; got "+d)
 	}
 	// no package-level variable of internal/upload holds parsed files
 	for _, mem := range m.Pkg("internal/upload").Members {
 		if g, ok := mem.(*ssa.Global); ok {
 			ts := g.Type().String()
-			r.Check("C07.fresh-parse", "package variable "+g.Name(), m.Pos(g.Pos()), !strings.Contains(ts, "counter.File") && !strings.Contains(ts, "parsedCache"),
+			r.Check(rule, "package variable "+g.Name(), m.Pos(g.Pos()), !strings.Contains(ts, "counter.File") && !strings.Contains(ts, "parsedCache"),
 				"no process-wide store of parsed counter files: "+short(ts))
 		}
 	}
 	// uploader values are created only in newUploader, called only from Run
 	nu := m.Func("internal/upload", "newUploader")
 	for _, cs := range m.callersOf(nu) {
-		r.Check("C07.fresh-parse", "caller of newUploader: "+fname(cs.Parent()), m.Pos(cs.Pos()), fname(cs.Parent()) == "internal/upload.Run", "one uploader per Run")
+		r.Check(rule, "caller of newUploader: "+fname(cs.Parent()), m.Pos(cs.Pos()), fname(cs.Parent()) == "internal/upload.Run", "one uploader per Run")
 	}
 	_ = n
 }
